@@ -531,7 +531,7 @@ func init() {
 	reg("C11", HarnessDef{ID: "H11.1s-e", Spec: HarnessSpec{Name: "vH_C11_shaped_empty", Pkg: "pkg/socks5", LoopBound: 12, LoopBounds: map[string]int{"ReadAtLeast": 2}, TimeoutS: 240, Par: 4},
 		What:   "one configured (non-empty) credential, the client presents user and password of length 0..1: success => exactly the configured pair - an unknown or empty user with an empty password is never let in",
 		Bounds: "field lengths 0..1, all byte values", Outside: "-"})
-	reg("C12", HarnessDef{ID: "H12.3", Spec: HarnessSpec{Name: "vH_C12_serve_conn", Pkg: "pkg/socks5", LoopBound: 30, LoopBounds: map[string]int{"ReadAtLeast": 2}, TimeoutS: 240, Par: 6,
+	reg("C12", HarnessDef{ID: "H12.3", Tier: "thorough", Spec: HarnessSpec{Name: "vH_C12_serve_conn", Pkg: "pkg/socks5", LoopBound: 30, LoopBounds: map[string]int{"ReadAtLeast": 2}, TimeoutS: 900, Par: 12,
 		Redirects: map[string]string{
 			"(*github.com/enfein/mieru/v3/pkg/socks5.Server).handleRequest":    "vStubHandleRequest",
 			"(*github.com/enfein/mieru/v3/pkg/socks5.Server).handleForwarding": "vStubHandleForwarding",
